@@ -249,6 +249,24 @@ pub fn run(ctx: Arc<Ctx>) {
 			},
 		}
 	}
+	// the same for tiles that spell a feature's packed fields in the other forms protobuf allows
+	for (name, raw) in [("tags split into two packed chunks", mvt::encode_tile_alternative_packing(false)), ("tags as unpacked varints", mvt::encode_tile_alternative_packing(true))] {
+		let want = mvt::decode_tile(&raw).expect("alternative packing decodes");
+		ctx.eval();
+		let case = json!({"kind": "reencode", "tile": name});
+		match catch(|| VectorTile::from_blob(&Blob::from(raw.as_slice())).and_then(|t| t.to_blob())) {
+			Err(p) => ctx.violation(&format!("decode/encode of a valid vector tile panics at {}", panic_site(&p)), &format!("{name}: {p}"), case),
+			Ok(Err(e)) => ctx.violation(&format!("a valid vector tile cannot be decoded/encoded: {}", super::c01::norm_msg(&format!("{e:#}"))), &format!("{name}: {e:#}"), case),
+			Ok(Ok(b)) => match mvt::decode_tile(b.as_slice()) {
+				Err(e) => ctx.violation("re-encoded vector tile is not a valid tile", &format!("{name}: {e}"), case),
+				Ok(got) => {
+					if let Some((clause, why)) = compare(&got, &want, "\u{0}") {
+						ctx.violation(&format!("decode -> encode without changes alters the tile: {}", clause.replace("other layer: ", "")), &format!("{name}: {why}"), case);
+					}
+				}
+			},
+		}
+	}
 	// part 2: the pipeline stage
 	let mut jobs = vec![];
 	for ti in 0..cat.len() {
